@@ -30,6 +30,8 @@ sys.path.insert(0, args.lib)
 import hypothesis
 from hypothesis import given, settings, seed, HealthCheck, strategies as st
 
+from tokenizers_standin import NormalizedString, PreTokenizedString, _CustomPreTokenizer  # registers the stand-in for `tokenizers`
+
 import sudachipy  # noqa: E402  (the freshly built extension module)
 
 os.makedirs(args.replays, exist_ok=True)
@@ -198,6 +200,7 @@ def run_example(ex):
     make(None, None, None)
     for op in ex["ops"]:
         kind = op[0]
+        STATE["op_counts"][kind] = STATE["op_counts"].get(kind, 0) + 1
         if kind == "create":
             make(op[1], op[2], op[3], op[4] if len(op) > 4 else None)
         elif kind == "tokenize":
@@ -301,6 +304,93 @@ def run_example(ex):
                 except Exception:
                     pass
                 compare_list(ml, om, subset, proj, text, "list of %r after a split result of it was reused as out= of tokenize(%r)" % (text, other))
+        elif kind == "pretok":
+            # Dictionary.pre_tokenizer (python/src/pretokenizer.rs) driven through a stand-in for the tokenizers
+            # package: the pieces are the code-point slices [begin, end) of the text (or the projected strings), the
+            # handler receives the library's morphemes, and the per-thread tokenizer / list are reused between calls
+            _, mode, fields, use_handler, proj, cfgproj, texts, via_split = op
+            if cfgproj is not None and proj == "surface":
+                proj = None  # which of the two wins is not documented for pre_tokenizer: not generated
+            d = w["dics"][cfgproj]
+            eff = proj if proj is not None else cfgproj
+            bits = PROJ_REQUIRED[cfgproj] | PROJ_REQUIRED[proj]
+            if use_handler:
+                if fields is None:
+                    bits = 1023
+                for f in fields or []:
+                    bits |= FIELDS[f]
+            subset = close_subset(bits)
+            hstate = {"viol": None, "calls": 0, "o": None, "text": None}
+
+            def handler(index, ns, ml):
+                hstate["calls"] += 1
+                try:
+                    if index != 7 and not via_split:
+                        raise Violation("pretok-index", "the handler received index %r" % (index,))
+                    if str(ns) != hstate["text"]:
+                        raise Violation("pretok-string", "the handler received %r for %r" % (str(ns), hstate["text"]))
+                    compare_list(ml, hstate["o"], subset, cfgproj, hstate["text"], "pre_tokenizer handler list for %r" % hstate["text"])
+                except Violation as v:
+                    hstate["viol"] = v
+                return [ns.slice(slice(m.begin(), m.end(), 1)) for m in ml]
+
+            kw = {}
+            if mode:
+                kw["mode"] = MODES[mode]
+            if fields is not None:
+                kw["fields"] = set(fields)
+            if use_handler:
+                kw["handler"] = handler
+            if proj is not None:
+                kw["projection"] = proj
+            pt = d.pre_tokenizer(**kw)
+            if not isinstance(pt, _CustomPreTokenizer):
+                raise Violation("pretok-type", "pre_tokenizer() returned %r" % (pt,))
+            for text in texts:
+                o = ORACLE.ask({"world": widx, "op": "tokenize", "text": text, "mode": mode or "C", "subset": bits})
+                hstate["o"] = o.get("morphemes")
+                hstate["text"] = text
+                hstate["viol"] = None
+                calls0 = hstate["calls"]
+                try:
+                    if via_split:
+                        pts = PreTokenizedString(text)
+                        pt.obj.pre_tokenize(pts)
+                        pieces = pts.splits
+                    else:
+                        pieces = pt.obj(7, NormalizedString(text))
+                except Violation:
+                    raise
+                except Exception as e:
+                    if hstate["viol"] is not None:
+                        raise hstate["viol"]
+                    if o.get("ok"):
+                        raise Violation("pretok-raises", "pre_tokenizer(%r, mode=%s) raised %r, the library succeeds" % (text, mode, e))
+                    continue
+                if hstate["viol"] is not None:
+                    raise hstate["viol"]
+                if not o.get("ok"):
+                    raise Violation("pretok-succeeds", "pre_tokenizer(%r) succeeded, the library fails" % text)
+                if use_handler and hstate["calls"] != calls0 + 1:
+                    raise Violation("pretok-handler-calls", "the handler was called %d times for one string" % (hstate["calls"] - calls0))
+                om = o["morphemes"]
+                if not all(isinstance(x, NormalizedString) for x in pieces):
+                    raise Violation("pretok-piece-type", "pieces of %r: %r" % (text, pieces))
+                got = [str(x) for x in pieces]
+                if use_handler or eff in (None, "surface"):
+                    want = [x["surface"] for x in om]
+                    if "".join(got) != text:
+                        raise Violation("pretok-partition", "pieces %r of %r do not concatenate to the text" % (got, text))
+                elif (subset & PROJ_REQUIRED[eff]) == PROJ_REQUIRED[eff] and (subset & 4 or eff in ("normalized", "reading", "dictionary")):
+                    want = [expected_surface(x, eff) for x in om]
+                else:
+                    want = None
+                    if len(got) != len(om):
+                        raise Violation("pretok-count", "%d pieces for %r, the library has %d morphemes" % (len(got), text, len(om)))
+                if want is not None and got != want:
+                    raise Violation("pretok-pieces", "pre_tokenizer(mode=%s, projection=%s, handler=%s) on %r gives %r, library %r" % (mode, eff, use_handler, text, got, want))
+                if len(texts) > 1:
+                    nontrivial = True
         elif kind == "lookup":
             surface = op[1]
             kw = {}
@@ -339,13 +429,14 @@ def example_strategy():
             st.tuples(st.just("tokenize_rejected"), st.integers(0, 5), st.integers(0, 6), st.one_of(st.none(), modes)),
             st.tuples(st.just("split"), st.integers(0, 50), st.sampled_from(["A", "B"]), st.sampled_from([0, 1, 2, 2]), st.one_of(st.none(), st.booleans()), st.booleans()),
             st.tuples(st.just("lookup"), st.one_of(st.sampled_from(WORLDS[world]["keys"]), t), st.booleans()),
+            st.tuples(st.just("pretok"), st.one_of(st.none(), modes), fields, st.booleans(), st.sampled_from(PROJECTIONS), st.sampled_from([None, None, None, "reading", "normalized"]), st.lists(t, min_size=1, max_size=4), st.booleans()),
         )
         return st.lists(op, min_size=1, max_size=10)
 
     return st.integers(0, len(WORLDS) - 1).flatmap(lambda w: st.fixed_dictionaries({"world": st.just(w), "ops": ops_for(w)}))
 
 
-STATE = {"examples": 0, "nontrivial": 0, "samples": [], "failure": None}
+STATE = {"examples": 0, "nontrivial": 0, "samples": [], "failure": None, "op_counts": {}}
 
 
 def to_jsonable(ex):
@@ -453,6 +544,13 @@ def fixed_examples():
                 ops.append(("split", i, "B", 1, True, True))
                 ops.append(("split", i, "A", 0, False, False))
             exs.append({"world": 0, "ops": ops})
+    # the pre-tokenizer: every projection x handler x entry point on texts with multi-byte, astral and normalised
+    # characters (code-point slices), a rejected text in the middle
+    big = "あ" * 16384
+    for p in PROJECTIONS:
+        for h in (False, True):
+            for via in (False, True):
+                exs.append({"world": 0, "ops": [("pretok", "A" if h else None, ["pos", "reading_form"] if h else None, h, p, None, [text, "𠮷野家で㍿を見た😀。", big, "", "ｱﾞ京都", text], via)]})
     return exs
 
 
